@@ -253,13 +253,38 @@ def run_case(seed, tier, rec, st):
             facts["union_copy_shortcut"] = common.union_copy_fact(fam, t)
         ns = fam.module.__dict__
         if types_ and types_[0][0] != "raw" and rng.random() < 0.5:
-            # history: the schemas of the ANCESTORS were built first
-            for A in common.ancestor_classes(fam, types_[0]):
+            # history: the schemas of the ANCESTORS were built first; the document must be the one a fresh twin family
+            # (same source, nothing built before) gets for the same type
+            ancestors = common.ancestor_classes(fam, types_[0])
+            twin_doc = None
+            if ancestors:
+                twin = Family("c20twin", future_annotations=fam.future)
+                try:
+                    twin.module._V = fam.module._V
+                    for src in fam.sources[1:]:
+                        twin.exec_src(src)
+                    twin_doc = build_json_schema(common.eval_type(twin, types_[0]), all_refs=False).to_dict()
+                except Exception:
+                    twin_doc = None
+                finally:
+                    twin.dispose()
+            for A in ancestors:
                 try:
                     build_json_schema(A, all_refs=rng.random() < 0.5)
                     rec.count("history_ancestor_schema_built_first")
                 except Exception:
                     pass
+            if twin_doc is not None:
+                rec.evaluation()
+                try:
+                    here = build_json_schema(common.eval_type(fam, types_[0]), all_refs=False).to_dict()
+                except Exception as e:
+                    here = f"{type(e).__name__}: {e}"[:200]
+                if json.dumps(here, sort_keys=True, default=str) == json.dumps(twin_doc, sort_keys=True, default=str):
+                    rec.count("history_ancestors_first_same_document")
+                else:
+                    rec.violation("history:document-depends-on-ancestors-built-first", {"type": tast.render(types_[0]), "after_ancestors": common.short(here, 600),
+                                  "fresh_twin": common.short(twin_doc, 600), "family": fam.to_json()}, dict(facts, history="ancestors-first"))
         for t in types_:
             tsrc = t[1] if t[0] == "raw" else tast.render(t)
             T = eval(tsrc, ns) if t[0] == "raw" else common.eval_type(fam, t)
